@@ -16,9 +16,9 @@ const (
 	// INSERT IGNORE of a negative number into an unsigned integer column stores 2^bits + v
 	// (number.go Convert: uint8(math.MaxUint8 + num + 1), Underflow) instead of 0.
 	kfUnsignedWrap = "C27-unsigned-underflow-wrap"
-	// An integer beyond the BIGINT range given as text or as a floating point number whose
-	// float64 value is exactly +-2^63 (2^63 .. 2^63+1024, -2^63-1024 .. -2^63-1) is stored as
-	// -9223372036854775808 without error or warning (convertToInt64: the float path tests
+	// An integer above the BIGINT range given as text or as a floating point number whose
+	// float64 value is exactly 2^63 (2^63 .. 2^63+1024) is stored as -9223372036854775808
+	// without error or warning (convertToInt64: the float path tests
 	// v > float64(math.MaxInt64) == 2^63, which is false for 2^63, and int64(2^63) wraps).
 	kfBigintWrap = "C27-bigint-2pow63-wrap"
 	// INSERT IGNORE of malformed numeric text ('8454143x') whose numeric prefix is out of
@@ -28,7 +28,8 @@ const (
 	// Numeric text with a fractional part (or beyond the BIGINT range) is converted to an
 	// integer column through float64 (convertToInt64/convertToUint64 string case with
 	// rounding: strconv.ParseFloat): above 2^53 the stored integer silently differs from the
-	// text ('655275335755491821.5' is stored as 655275335755491840 in strict mode).
+	// text ('655275335755491821.5' is stored as 655275335755491840 in strict mode; the
+	// out-of-range '-9223372036854775853' is stored as -9223372036854775808).
 	kfTextViaFloat = "C27-integer-text-via-float64"
 	// text without any digit ('', ' ', '-', '.') is stored as 0 into numeric columns without
 	// error or warning (TruncateStringToInt/Double return "0" and report no truncation).
@@ -85,15 +86,14 @@ func floatPath(c tcase) (fv float64, ok bool) {
 	return fv, true
 }
 
-// floatEdge: the float64 value is exactly +-2^63 although the exact value is not: the
-// boundary test of convertToInt64 lets it through and int64(v) wraps to MinInt64.
+// floatEdge: the float64 value is exactly 2^63: the boundary test of convertToInt64
+// (v > float64(math.MaxInt64), which is 2^63) lets it through and int64(v) wraps to MinInt64.
+// (Text just below -2^63, e.g. '-9223372036854775853', whose float64 value is the in-range
+// -2^63, is stored as -2^63: that is the lossy float path, kfTextViaFloat.)
 func floatEdge(c tcase) bool {
 	fv, ok := floatPath(c)
 	if !ok || c.ddl == "BIGINT UNSIGNED" {
 		return false
-	}
-	if c.ddl == "BIGINT" {
-		return fv == 9223372036854775808.0 || (fv == -9223372036854775808.0 && c.rep == repNot)
 	}
 	return fv == 9223372036854775808.0
 }
